@@ -50,7 +50,9 @@ Definition orc (o : toracles) (intls : bool) : oracles :=
      o_databytes := o_databytes (o_clear o); o_liphost := o_liphost (o_clear o);
      o_check2822 := o_check2822 (o_clear o);
      o_authperm := o_authperm (o_clear o); o_auth := o_auth (o_clear o);
-     o_trace := if intls then o_trace_tls o else o_trace (o_clear o) |}.
+     o_trace := if intls then o_trace_tls o else o_trace (o_clear o);
+     o_submission := o_submission (o_clear o); o_subm_date := o_subm_date (o_clear o);
+     o_subm_stamp := o_subm_stamp (o_clear o); o_msgidhost := o_msgidhost (o_clear o) |}.
 
 (** the client's script *)
 Record script := {
